@@ -83,6 +83,8 @@ def run_case(g, bad_file, phase, grepo, history, provider="plain"):
             bad.append(("load with a failing file succeeded",))
         except Exception as e:
             obs["error"] = "%s: %s" % (type(e).__name__, str(e).replace(d, "<dir>")[:120])
+            if phase != "syntax" and type(e).__name__ == "TextXSyntaxError":
+                raise core.HarnessError("phase %s: the broken file is not even syntactically valid: %s" % (phase, obs["error"]))
         after = repo_files(mm)
         if grepo:
             if set(after) != set(before) or any(after[k] is not before[k] for k in before):
@@ -110,12 +112,108 @@ def run_case(g, bad_file, phase, grepo, history, provider="plain"):
         for k, v in before.items():
             if grepo and final.get(k) is not v:
                 bad.append(("earlier cached model lost or replaced after repair", k))
+    except core.HarnessError:
+        raise
     except Exception as e:
         import traceback
 
         bad.append(("exception", "%s: %s" % (type(e).__name__, str(e).replace(d, "<dir>")), traceback.format_exc()[-300:]))
     obs["failures"] = bad[:3]
     return not bad, obs
+
+
+# ---- second family: a caller-owned GlobalModelRepository ("project index") filled through GlobalRepo.load_models_in_model_repo
+INDEX_FILES = {"a_base": "def b1\n", "m_main": "def m1\nref r1 -> b1\nref r2 -> l1\n", "leaf": "def l1\nref r3 -> b1\n"}
+INDEX_BROKEN = {"syntax": "def l1\nref r3 -> -> b1\n", "unresolved": "def l1\nref r3 -> nowhere\n", "procfail": "def l1\ndef boom\nref r3 -> b1\n",
+                "modelproc": "def l1\ndef failmodel\nref r3 -> b1\n"}
+
+
+def run_index_case(phase, grepo, leaf_name, earlier, provider):
+    """leaf_name decides whether the failing file is loaded before ('b_leaf') or after ('z_leaf') the file that refers to it"""
+    from textx import register_language, clear_language_registrations, metamodel_from_str
+    from textx.scoping import GlobalModelRepository
+    from textx.scoping import providers as P
+
+    d = os.path.join(core.rundir(), "c18i-%d" % os.getpid())
+    os.makedirs(d, exist_ok=True)
+    for f in os.listdir(d):
+        os.remove(os.path.join(d, f))
+    clear_language_registrations()
+    mm = make("none", grepo)
+    prov = getattr(P, provider)(os.path.join(d, "*.c18m"))
+    mm.register_scope_providers({"*.*": prov})
+    register_language("c18-lang", pattern="*.c18m", metamodel=mm)
+    obs = {"family": "project index", "phase": phase, "global_repository": grepo, "failing_file": leaf_name, "earlier_load": earlier, "provider": provider}
+    bad = []
+
+    def write(name, text):
+        with open(os.path.join(d, name + ".c18m"), "w") as f:
+            f.write(text)
+
+    def names(repo):
+        return sorted(os.path.basename(k) for k in repo.filename_to_model)
+    try:
+        index = GlobalModelRepository()
+        write("a_base", INDEX_FILES["a_base"])
+        base = None
+        if earlier:
+            prov.load_models_in_model_repo(global_model_repo=index)
+            base = index.all_models[os.path.join(d, "a_base.c18m")]
+        before = names(index.all_models)
+        mm_before = names(mm._tx_model_repository.all_models) if grepo else []
+        write("m_main", INDEX_FILES["m_main"])
+        write(leaf_name, INDEX_BROKEN[phase])
+        try:
+            prov.load_models_in_model_repo(global_model_repo=index)
+            bad.append(("load with a failing file succeeded",))
+        except Exception as e:
+            obs["error"] = "%s: %s" % (type(e).__name__, str(e).replace(d, "<dir>")[:100])
+            if phase != "syntax" and type(e).__name__ == "TextXSyntaxError":
+                raise core.HarnessError("index family, phase %s: %s" % (phase, obs["error"]))
+        if names(index.all_models) != before or names(index.local_models) not in (before, []):
+            bad.append(("caller-owned repository after the failure", before, names(index.all_models), names(index.local_models)))
+        if grepo and names(mm._tx_model_repository.all_models) != mm_before:
+            bad.append(("metamodel repository after the failure", mm_before, names(mm._tx_model_repository.all_models)))
+        if base is not None and index.all_models[os.path.join(d, "a_base.c18m")] is not base:
+            bad.append(("earlier model replaced",))
+        write(leaf_name, INDEX_FILES["leaf"])
+        prov.load_models_in_model_repo(global_model_repo=index)
+        got = {os.path.basename(k)[:-5]: v for k, v in index.all_models.filename_to_model.items()}
+        if sorted(got) != sorted(["a_base", "m_main", leaf_name]):
+            bad.append(("models after the repaired load", sorted(got)))
+        else:
+            if base is not None and got["a_base"] is not base:
+                bad.append(("earlier model replaced by the repaired load",))
+            tg = {r.name: r.target for m_ in got.values() for r in m_.refs}
+            want = {"r1": got["a_base"].defs[0], "r2": got[leaf_name].defs[0], "r3": got["a_base"].defs[0]}
+            for k in want:
+                if tg.get(k) is not want[k]:
+                    bad.append(("identity of reference after the repaired load", k))
+            for m_ in got.values():
+                if hasattr(m_, "_tx_reference_resolver"):
+                    bad.append(("model still marked as under construction",))
+    except core.HarnessError:
+        raise
+    except Exception as e:
+        import traceback
+
+        bad.append(("exception", "%s: %s" % (type(e).__name__, str(e).replace(d, "<dir>")), traceback.format_exc()[-300:]))
+    finally:
+        clear_language_registrations()
+    obs["failures"] = bad[:3]
+    return not bad, obs
+
+
+def work_index(arg):
+    u = Unit()
+    for c in arg:
+        with watchdog(30):
+            ok, obs = run_index_case(*c)
+        u.case(["index"] + list(c), nontrivial=True, sample=obs)
+        u.count("index family phase:%s -> %s" % (c[0], obs.get("error", "no error").split(":")[0]))
+        if not ok:
+            u.fail(["index"] + list(c), {"index": list(c)}, sig="index %s | %s" % (obs["failures"][0][0], c[0]), what=str(obs)[:500])
+    return u
 
 
 def work(arg):
@@ -126,7 +224,7 @@ def work(arg):
         with watchdog(30):
             ok, obs = run_case(g, bf, phase, grepo, hist, prov)
         u.case(cid, nontrivial=True, sample=obs if bf != 0 and hist != "none" else None)
-        u.count("phase:" + phase)
+        u.count("phase:%s -> %s" % (phase, obs.get("error", "no error").split(":")[0]))
         if not ok:
             u.fail(cid, {"graph": g, "bad_file": bf, "phase": phase, "grepo": grepo, "history": hist, "provider": prov},
                    sig="%s | %s %s" % (obs["failures"][0][0], phase, hist),
@@ -149,13 +247,19 @@ def run(ctx):
                             cases.append((g, bf, phase, grepo, hist, prov))
     B = 30
     ctx.pmap(work, [cases[i:i + B] for i in range(0, len(cases), B)])
+    icases = [(ph, gr, leaf, earlier, prov) for ph in PHASES for gr in (False, True) for leaf in ("b_leaf", "z_leaf") for earlier in (False, True)
+              for prov in ("PlainNameGlobalRepo", "FQNGlobalRepo")]
+    ctx.pmap(work_index, [icases[i:i + 4] for i in range(0, len(icases), 4)])
     return {
         "rule": "case = (import digraph, failing closure file, phase in %s, global repository on/off, earlier history in %s, provider); all digraphs over 2 "
-                "files and %s over 3 files; every case is a failing load followed by a repaired load" % (PHASES, HISTORIES, "every 8th digraph" if ctx.tier == "quick" else "all 512 digraphs"),
+                "files and %s over 3 files; every case is a failing load followed by a repaired load; second family: a caller-owned GlobalModelRepository filled through "
+                "GlobalRepo.load_models_in_model_repo (phase x global repository x failing file loaded before/after its user x earlier successful load x provider)" % (PHASES, HISTORIES, "every 8th digraph" if ctx.tier == "quick" else "all 512 digraphs"),
         "exhaustive": True, "cases": len(cases),
     }, ["the failing file is f0's closure member; failures are injected by text (syntax, unresolved reference) or by marker definitions that make a processor raise"]
 
 
 def replay(p):
+    if "index" in p:
+        return run_index_case(*p["index"])
     g = tuple(tuple(x) for x in p["graph"])
     return run_case(g, p["bad_file"], p["phase"], p["grepo"], p["history"], p.get("provider", "plain"))
